@@ -57,7 +57,7 @@ def shard(seed, n, tier):
 
 
 def main(tier, seed, cases=None):
-    return simprop.standard_main(PROP, LEVEL, __name__, RULE, ASSUMPTIONS, tier, seed, cases, quick=(4, 250), thorough=(16, 3000))
+    return simprop.standard_main(PROP, LEVEL, __name__, RULE, ASSUMPTIONS, tier, seed, cases, quick=(8, 250), thorough=(16, 3000))
 
 
 def replay(path):
